@@ -685,7 +685,64 @@ func runWide(r *vh.Run) {
 		}
 	}
 	r.Count("wide_group_trees", int64(wide))
+	runSameText(r)
 	runRewrite(r)
+}
+
+// runSameText: a fixed list of aggregating groups, flat and nested 1..3 deep,
+// in which 2..6 probes fail with the *same* message (and others with their
+// own): every failure is one entry of the returned error, however alike the
+// texts are and wherever in the nesting it was collected.
+func runSameText(r *vh.Run) {
+	msgs := exhMsgs()
+	cnt := 0
+	for depth := 0; depth <= 3; depth++ {
+		for same := 2; same <= 6; same++ {
+			for pat := 0; pat < 4; pat++ {
+				id := 0
+				fail := func(text string) *cfgx.Node {
+					id++
+					n := &cfgx.Node{Kind: cfgx.KProbe, A: map[string]string{"id": "s" + strconv.Itoa(id)}, ErrOn: []cfgx.Kind{cfgx.Req, cfgx.Res}}
+					if text != "" {
+						n.A["errText"] = text
+					}
+					return n
+				}
+				ok := func() *cfgx.Node {
+					id++
+					return &cfgx.Node{Kind: cfgx.KProbe, A: map[string]string{"id": "s" + strconv.Itoa(id)}}
+				}
+				txt := cfgx.SharedErrTexts[pat%2]
+				// failures are dealt round-robin to the levels of the nesting, outermost first
+				levels := make([]*cfgx.Node, depth+1)
+				for l := range levels {
+					levels[l] = &cfgx.Node{Kind: cfgx.KFifo, Agg: true}
+				}
+				for i := 0; i < same; i++ {
+					lv := levels[i%len(levels)]
+					lv.Kids = append(lv.Kids, fail(txt))
+					if pat >= 2 {
+						lv.Kids = append(lv.Kids, ok(), fail(""))
+					}
+				}
+				for l := depth; l > 0; l-- {
+					// pat 1, 3: the nested group comes first, so its errors are collected before the outer ones
+					if pat%2 == 1 {
+						levels[l-1].Kids = append([]*cfgx.Node{levels[l]}, levels[l-1].Kids...)
+					} else {
+						levels[l-1].Kids = append(levels[l-1].Kids, levels[l])
+					}
+				}
+				idx := depth*100 + same*10 + pat
+				c := treeCase{Kind: "tree", Stream: "c12-sametext", Idx: idx, Tree: levels[0], Msgs: msgs}
+				r.Case(map[string]interface{}{"kind": "sametext", "depth": depth, "same": same, "pattern": pat})
+				r.SetCase(c)
+				judgeTree(r, c)
+				cnt++
+			}
+		}
+	}
+	r.Count("same_text_failure_trees", int64(cnt))
 }
 
 // runRewrite: a fixed list of groups in which a filter on the request URL
